@@ -124,6 +124,15 @@ func (vc *VC) oblige(st *State, kind, name, pos, desc string, goal *Term, props 
 	if len(props) == 0 {
 		props = vc.props
 	}
+	// contract clauses that are conjunctions are discharged conjunct by conjunct (smaller, more stable queries;
+	// the failing conjunct is named in the report)
+	if goal.Kind == TApp && goal.Op == "and" && len(goal.Args) > 1 && (kind == "ensures" || kind == "invariant" || kind == "requires") {
+		for i, g := range goal.Args {
+			vc.obligs = append(vc.obligs, &Oblig{ID: fmt.Sprintf("%s/%d", id, i+1), Kind: kind, Func: vc.root.String(), Pos: pos, Props: props,
+				Desc: fmt.Sprintf("%s (conjunct %d of %d)", desc, i+1, len(goal.Args)), Reach: st.reach, Goal: g, NAssume: len(vc.assumes), vc: vc})
+		}
+		return
+	}
 	vc.obligs = append(vc.obligs, &Oblig{ID: id, Kind: kind, Func: vc.root.String(), Pos: pos, Props: props, Desc: desc,
 		Reach: st.reach, Goal: goal, NAssume: len(vc.assumes), vc: vc})
 }
